@@ -326,6 +326,21 @@ pub fn run_c08_files(tier: &str, rng: &mut Rng, model: &Model, rep: &mut Report,
             run_one(&c2, "reused-computer", rep);
         }
     }
+    // a record of 2.5 million windows of which exactly one falls outside bin 0 (separate counting input holding only that k-mer):
+    // the fraction 0.9999996 lies between the last 6-decimal value below 1 and 1 itself and must be printed as 1.000000
+    {
+        let k = 15usize;
+        let p = b"GATTACAGGCTTAAC".to_vec();
+        let half = rng.range(620_000, 640_000) as usize;
+        let mut big: Vec<u8> = Vec::with_capacity(4 * half + 20);
+        for _ in 0..half { big.extend_from_slice(b"AC"); }
+        big.extend_from_slice(&p);
+        for _ in 0..half { big.extend_from_slice(b"CA"); }
+        let recs = vec![gen::clean_seq(rng, 60, gen::Flavor::Uniform), big];
+        let alt = Some(vec![p.clone(), p.clone(), p.clone(), p.clone(), p.clone()]);
+        let c = CovCase { recs, alt, k, bin_size: 5, bin_count: 5, norm: true, delim: b" ".to_vec(), threads: 2, mem: 6.0, prev: None };
+        run_one(&c, "fraction-just-below-one", rep);
+    }
     // many records in one batch with several threads (rows must stay in input order)
     let rounds = if tier == "thorough" { 6 } else { 1 };
     for _ in 0..rounds {
